@@ -9,6 +9,7 @@ import BV.Drive.Util
     recoder lmb <lgwin> <npostfix> <ndirect> <hedq> <ctx> <nbe> <dc> <input0hex> <input1hex> <cmds> <btl> <btc> <btd> <words>
       (inputs of `LogMetaBlock` dumped by the cfg(brotli_verif) hook `verif_recoder_hook` in the real encoder)
     answer: `ok <nbe'> <ir tokens…>` | `panic`
+    recoder stride <n> <withLits>   StrideEval bookkeeping after n literal block switches: `ok <num_types>` | `panic`
 -/
 namespace BV.Drive.Recoder
 open BV.Drive BV.Recoder
@@ -78,6 +79,13 @@ def handle (args : List String) : String :=
       | none => "panic"
       | some (ir, nbe') => " ".intercalate (s!"ok {nbe'}" :: ir.map irToken)
     | _, _, _, _ => "bad-op"
+  | ["stride", n, withLits] =>
+    -- n literal block switches (the first is the one `process_command_queue` pushes itself), each optionally followed by a literal
+    let ir : List IR := (List.range (natArg n)).flatMap fun k =>
+      if natArg withLits != 0 then [IR.bsl (k % 4), IR.lit 0 3 false] else [IR.bsl (k % 4)]
+    match stridePass ir with
+    | none => "panic"
+    | some k => s!"ok {k}"
   | _ => "bad-op"
 
 end BV.Drive.Recoder
